@@ -269,13 +269,31 @@ partial def nondet : Expr → Bool
   | .uop _ r _ _ _ => nondet r
   | _ => true
 
+/-- executable `SfIs` (Amoco.Model.Eval): the operand is read with signedness `s` -/
+partial def sfIsB (s : Bool) : Expr → Bool
+  | .cst v sz f => f == s || !v.testBit (sz - 1)
+  | .reg _ _ f | .ext _ _ f | .slc _ _ _ f _ _ | .comp _ f _ | .op _ _ _ _ f _ | .uop _ _ _ f _ => f == s
+  | .tst _ l r _ _ => sfIsB s l && sfIsB s r
+  | _ => false
+
+/-- executable `SignOK`: every sign-dependent operator has two operands of ONE declared signedness — the trees on
+    which `ideal` (one reading per operator, taken from the left operand) is the meaning; the real operators read
+    each operand with its own flag, so on other trees `ideal` is not compared with the reference evaluator -/
+partial def signOKB : Expr → Bool
+  | .slc x .. => signOKB x
+  | .comp _ _ ps => ps.all (fun p => signOKB p.2.2)
+  | .tst t l r _ _ => signOKB t && signOKB l && signOKB r
+  | .op o l r _ _ _ => signOKB l && signOKB r && (!signDep o || (sfIsB l.sf l && sfIsB l.sf r))
+  | .uop _ r _ _ _ => signOKB r
+  | _ => true
+
 /-- valuations `[[[name,size,value]…]…]` → the Lean reference value `ideal ρ e` for each (null when `e` has no
     single value) -/
 def idealsOf (e : Expr) (j : Json) : Json :=
   match j.getArr? with
   | .error _ => Json.null
   | .ok vals =>
-    if nondet e then Json.null else
+    if nondet e || !signOKB e then Json.null else
     Json.arr (vals.map (fun vj =>
       match parseVal vj with
       | .error _ => Json.null
